@@ -213,27 +213,46 @@ Definition nomatch (raw : Z) (buf : list Z) (a b : Z) : Prop := forall p, a <= p
 Lemma nomatch_app raw buf a b c : nomatch raw buf a b -> nomatch raw buf b c -> nomatch raw buf a c.
 Proof. intros H1 H2 p Hp. destruct (Z.lt_ge_cases p b); [apply H1|apply H2]; lia. Qed.
 
+(* "<!--" at offset p: what opens the double-escape section of a script *)
+Definition comment_open (buf : list Z) (p : Z) : Prop :=
+  peekz buf p = Some 60 /\ peekz buf (p + 1) = Some 33 /\ peekz buf (p + 2) = Some 45 /\ peekz buf (p + 3) = Some 45.
+
+(* outside script, or no "<!--" in [a, b) *)
+Definition plain_raw (raw : Z) (buf : list Z) (a b : Z) : Prop :=
+  raw <> html_hash_Script \/ forall p, a <= p < b -> ~ comment_open buf p.
+
+Lemma plain_raw_mono raw buf a b b' : b <= b' -> plain_raw raw buf a b' -> plain_raw raw buf a b.
+Proof. intros Hb [H|H]; [left; exact H|right; intros p Hp; apply H; lia]. Qed.
+
+(* no end tag at any p in [a, b) that is reached without passing a "<!--" of a script *)
+Definition nomatchp (raw : Z) (buf : list Z) (a b : Z) : Prop :=
+  forall p, a <= p < b -> plain_raw raw buf a (p + 1) -> ~ end_tag_at raw buf p.
+
 Lemma rawtext_loop_run c raw z has fuel r : loop fuel (rawtext_body c raw) (z, has) = Ok r ->
   same z (fst r) /\ lpos z <= lpos (fst r) /\
   (at_end (fst r) = true \/ end_tag_at raw (lbuf z) (lpos (fst r))) /\
-  (has_delims c = false -> raw <> html_hash_Script -> nomatch raw (lbuf z) (lpos z) (lpos (fst r))).
+  (has_delims c = false -> nomatchp raw (lbuf z) (lpos z) (lpos (fst r))).
 Proof.
   intros H.
   refine (loop_inv (fun s => same z (fst s) /\ lpos z <= lpos (fst s) /\
-                             (has_delims c = false -> raw <> html_hash_Script -> nomatch raw (lbuf z) (lpos z) (lpos (fst s))))
+                             (has_delims c = false -> nomatchp raw (lbuf z) (lpos z) (lpos (fst s))))
             (fun r => same z (fst r) /\ lpos z <= lpos (fst r) /\
                       (at_end (fst r) = true \/ end_tag_at raw (lbuf z) (lpos (fst r))) /\
-                      (has_delims c = false -> raw <> html_hash_Script -> nomatch raw (lbuf z) (lpos z) (lpos (fst r))))
-            (rawtext_body c raw) _ _ (z, has) r _ H); [|split; [apply same_refl|split; [cbn; lia|intros _ _ p Hp; cbn in Hp; lia]]].
-  clear H r. intros [s h0] x (Hs & Hle & Hnm) Hx. cbn [fst] in *. unfold rawtext_body in Hx.
+                      (has_delims c = false -> nomatchp raw (lbuf z) (lpos z) (lpos (fst r))))
+            (rawtext_body c raw) _ _ (z, has) r _ H); [|split; [apply same_refl|split; [cbn; lia|intros _ p Hp; cbn in Hp; lia]]].
+  clear H r. intros [s h0] x (Hs & Hle & Hnm0) Hx. cbn [fst] in *. unfold rawtext_body in Hx.
   pose proof Hs as [Hb Hst].
+  (* extending the range by positions that carry no end tag *)
+  assert (Hext : forall b, (forall p, lpos s <= p < b -> ~ end_tag_at raw (lbuf z) p) ->
+                 has_delims c = false -> nomatchp raw (lbuf z) (lpos z) b).
+  { intros b Hno Hd p Hp Hpl. destruct (Z.lt_ge_cases p (lpos s)) as [Hlt|Hge]; [apply (Hnm0 Hd p); [lia|exact Hpl]|apply Hno; lia]. }
   destruct (pkr s 0) as [c0| |] eqn:E0; cbn [rbind] in Hx; try discriminate.
   assert (Hp0 : pk s 0 = Some c0) by (unfold pkr in E0; destruct (pk s 0); cbn in E0; congruence).
   assert (Hq0 : peekz (lbuf z) (lpos s) = Some c0) by (rewrite <- Hb; apply pk_peekz in Hp0; rewrite Z.add_0_r in Hp0; exact Hp0).
   (* moving one byte over something that is not the start of an end tag *)
   assert (Hstep1 : (c0 <> 60 \/ exists c1, pk s 1 = Some c1 /\ c1 <> 47) ->
-                   has_delims c = false -> raw <> html_hash_Script -> nomatch raw (lbuf z) (lpos z) (lpos s + 1)).
-  { intros Hc Hd Hr. eapply nomatch_app; [apply Hnm; assumption|]. intros p Hp. assert (p = lpos s) as -> by lia.
+                   has_delims c = false -> nomatchp raw (lbuf z) (lpos z) (lpos s + 1)).
+  { intros Hc. apply Hext. intros p Hp. assert (p = lpos s) as -> by lia.
     destruct Hc as [Hc|(c1 & Hc1 & Hc)]; [eapply not_lt_here; eauto|].
     apply pk_peekz in Hc1. rewrite Hb in Hc1. eapply not_slash_here; eauto. }
   destruct (c0 =? 60) eqn:E60.
@@ -252,11 +271,11 @@ Proof.
         * assert (Hpos : lpos (rewind z2 (mark s)) = lpos s).
           { unfold rewind, mark. cbn [lpos]. destruct Hs2 as [_ Hst2]. cbn [mv lstart] in Hst2. lia. }
           split; [eapply same_trans; [exact Hs|eapply same_trans; [apply same_mv|eapply same_trans; [exact Hs2|apply same_rewind]]]|].
-          rewrite Hpos. split; [lia|]. split; [right; apply Hm; [b2p; assumption|reflexivity]|exact Hnm].
+          rewrite Hpos. split; [lia|]. split; [right; apply Hm; [b2p; assumption|reflexivity]|exact Hnm0].
         * split; [apply Hcont|]. split; [apply Hcont|].
-          intros Hd Hr. eapply nomatch_app; [apply Hnm; assumption|]. intros p Hp. apply Hnf; [reflexivity|exact Hp].
+          apply Hext. intros p Hp. apply Hnf; [reflexivity|exact Hp].
       + injection Hx as <-; cbn [fst]. split; [apply Hcont|]. split; [apply Hcont|].
-        intros Hd Hr. eapply nomatch_app; [apply Hnm; assumption|]. intros p Hp. apply (Hn true); [b2p; assumption|exact Hp].
+        apply Hext. intros p Hp. apply (Hn true); [b2p; assumption|exact Hp].
     - destruct (if (raw =? html_hash_Script) && (c1 =? 33)
                 then c2 <-- pkr s 2;; (if c2 =? 45 then c3 <-- pkr s 3;; Ok (c3 =? 45) else Ok false)
                 else Ok false) as [sc| |] eqn:Esc; cbn [rbind] in Hx; try discriminate.
@@ -264,16 +283,29 @@ Proof.
       destruct sc.
       + assert (Hraw : raw = html_hash_Script).
         { destruct ((raw =? html_hash_Script) && (c1 =? 33)) eqn:E; [b2p; assumption|discriminate]. }
+        (* "<!--" stands here *)
+        assert (Hco : comment_open (lbuf z) (lpos s)).
+        { destruct ((raw =? html_hash_Script) && (c1 =? 33)) eqn:E; [|discriminate].
+          destruct (pkr s 2) as [c2| |] eqn:E2; cbn [rbind] in Esc; try discriminate.
+          assert (Hp2 : pk s 2 = Some c2) by (unfold pkr in E2; destruct (pk s 2); cbn in E2; congruence).
+          destruct (c2 =? 45) eqn:E245; [|discriminate].
+          destruct (pkr s 3) as [c3| |] eqn:E3; cbn [rbind] in Esc; try discriminate.
+          assert (Hp3 : pk s 3 = Some c3) by (unfold pkr in E3; destruct (pk s 3); cbn in E3; congruence).
+          injection Esc as E345. b2p. subst c0 c1 c2 c3.
+          apply pk_peekz in Hp1, Hp2, Hp3. rewrite Hb in Hp1, Hp2, Hp3. repeat split; assumption. }
+        assert (Hvac : forall b, has_delims c = false -> nomatchp raw (lbuf z) (lpos z) b).
+        { intros b Hd p Hp Hpl. destruct (Z.lt_ge_cases p (lpos s)) as [Hlt|Hge]; [apply (Hnm0 Hd p); [lia|exact Hpl]|].
+          exfalso. destruct Hpl as [Hr|Hnc]; [congruence|]. apply (Hnc (lpos s)); [lia|exact Hco]. }
         destruct (loop (fuel_of s) script_comment_body (mv s 4, false)) as [r2| |] eqn:Er2; cbn [rbind] in Hx; try discriminate.
         pose proof (script_comment_run _ _ _ _ Er2) as Hr2.
         (* positions are monotone: use the total specification for that *)
         destruct r2 as [z'|z']; injection Hx as <-; cbn [fst].
         * destruct Hr2 as [Hr2 Hr2le]. cbn [mv lpos] in Hr2le.
           split; [eapply same_trans; [exact Hs|eapply same_trans; [apply same_mv|exact Hr2]]|].
-          split; [lia|intros _ Hr; congruence].
+          split; [lia|apply Hvac].
         * destruct Hr2 as [[Hr2 Hr2le] He]. cbn [mv lpos] in Hr2le.
           split; [eapply same_trans; [exact Hs|eapply same_trans; [apply same_mv|exact Hr2]]|].
-          split; [lia|]. split; [|intros _ Hr; congruence].
+          split; [lia|]. split; [|apply Hvac].
           destruct He as [He|He]; [left; exact He|right]. cbn [mv lbuf] in He. rewrite Hb in He. rewrite Hraw. exact He.
       + injection Hx as <-. cbn [fst]. split; [eapply same_trans; [exact Hs|apply same_mv]|]. cbn [mv lpos]. split; [lia|].
         apply Hstep1. right. eauto. }
@@ -283,9 +315,9 @@ Proof.
   - destruct (tmpl_skip c s) as [z'| |] eqn:Ez'; cbn [rbind] in Hx; try discriminate. injection Hx as <-. cbn [fst].
     apply tmpl_skip_run in Ez'. destruct Ez' as [Hz' Hz'le].
     split; [eapply same_trans; eauto|]. split; [lia|].
-    intros Hd _. unfold tmpl_at in Et. rewrite Hd in Et. discriminate.
+    intros Hd. unfold tmpl_at in Et. rewrite Hd in Et. discriminate.
   - destruct (eof0 s c0) eqn:Ee; injection Hx as <-; cbn [fst].
-    + split; [exact Hs|]. split; [exact Hle|]. split; [left; unfold eof0 in Ee; b2p; assumption|exact Hnm].
+    + split; [exact Hs|]. split; [exact Hle|]. split; [left; unfold eof0 in Ee; b2p; assumption|exact Hnm0].
     + split; [eapply same_trans; [exact Hs|apply same_mv]|]. cbn [mv lpos]. split; [lia|]. apply Hstep1. left. exact Hc60.
 Qed.
 
